@@ -363,8 +363,8 @@ Theorem constructed_geometries_wellformed :
   (forall rs rd curv s2d axis tr g, mk_fan sqrt rs rd curv s2d axis tr = Some g ->
      dot2 (f_s2d g) (f_s2d g) = 1 /\ wf_det2 (f_det g) /\ 0 <= f_rs g /\ 0 <= f_rd g /\
      ~ (f_rs g = 0 /\ f_rd g = 0) /\ f_tr g = tr) /\
-  (forall rs rd curv pitch off axis s2d axes tr g,
-     mk_cone sqrt rs rd curv pitch off axis s2d axes tr = Some g ->
+  (forall fixed rs rd curv pitch off axis s2d axes tr g,
+     mk_cone sqrt fixed rs rd curv pitch off axis s2d axes tr = Some g ->
      dot3 (c_axis g) (c_axis g) = 1 /\ dot3 (c_s2d g) (c_s2d g) = 1 /\ wf_det3' (c_det g) /\
      0 <= c_rs g /\ 0 <= c_rd g /\ ~ (c_rs g = 0 /\ c_rd g = 0) /\
      c_tr g = tr /\ c_pitch g = pitch /\ c_off g = off).
@@ -405,15 +405,39 @@ Proof. exact par3a_frommatrix_spec. Qed.
 Print Assumptions parallel3d_axis_frommatrix.
 
 (* ConeBeamGeometry.frommatrix (flat detector), incl. helical pitch, offset and shift functions *)
-Theorem conebeam_frommatrix : forall (rs rd pitch off : R) m (tr : R * R * R) (g : cone)
+Theorem conebeam_frommatrix : forall (fixed : bool) (rs rd pitch off : R) m (tr : R * R * R) (g : cone)
     (a : R * R) (ang twopi : R) (ssh dsh : R * R * R) (p : dpar3),
-  is_rot3 m -> cone_frommatrix sqrt rs rd CFlat pitch off m tr = Some g ->
+  is_rot3 m -> cone_frommatrix sqrt fixed rs rd CFlat pitch off m tr = Some g ->
   cone_src sqrt g a ang twopi ssh = add3 tr (mv3 m (cone_src sqrt (cone_default rs rd pitch off) a ang twopi ssh)) /\
   cone_detpoint sqrt g a ang twopi dsh p =
     add3 tr (mv3 m (cone_detpoint sqrt (cone_default rs rd pitch off) a ang twopi dsh p)) /\
   c_axis g = mv3 m (0, 0, 1).
 Proof. exact cone_frommatrix_spec. Qed.
 Print Assumptions conebeam_frommatrix.
+
+(* ---- curved detectors with non-default axes.  Full statement "a cone beam geometry with a cylindrical or
+   spherical detector built by frommatrix (or directly on rotated axes) is the rigid-motion image of the default
+   one, and surface_deriv(0, 0) = radius * axes" is FALSE for the code as it is: Cylindrical/SphericalDetector
+   align themselves by two successive rotation_matrix_from_to calls, and when the first rotation takes e_z to
+   -axes[1] the second one is a half turn about an ARBITRARY perpendicular axis (recorded finding
+   C19/curved-detector-antiparallel-axes; refuted by execution in [curved_alignment_refuted] below).
+   [mk_curved false] is the code as it is, [mk_curved true] the repaired alignment (matrix with columns
+   -(a0 x a1), -a0, a1); the harness measures which one /repo shows.  For the repaired alignment: *)
+Theorem curved_detector_deriv_at_zero_repaired : forall (sph : bool) (a0 a1 : R * R * R) (r u v : R) (d : det3d),
+  mk_curved sqrt true sph a0 a1 r = Some d ->
+  deriv3 d (u, v, (1, 0), (1, 0)) =
+  (scal3 r (fst (det3_axes d)), if sph then scal3 r (snd (det3_axes d)) else snd (det3_axes d)).
+Proof. exact mk_curved_fixed_deriv. Qed.
+Print Assumptions curved_detector_deriv_at_zero_repaired.
+
+Theorem conebeam_frommatrix_curved_repaired : forall (sph : bool) (rs rd r pitch off : R) m (tr : R * R * R) (g : cone)
+    (a : R * R) (ang twopi : R) (dsh : R * R * R) (p : dpar3),
+  is_rot3 m ->
+  cone_frommatrix sqrt true rs rd (if sph then CSph r else CCyl r) pitch off m tr = Some g ->
+  cone_detpoint sqrt g a ang twopi dsh p =
+    add3 tr (mv3 m (cone_detpoint sqrt (cone_default_curved sph rs rd r pitch off) a ang twopi dsh p)).
+Proof. exact cone_frommatrix_curved_spec. Qed.
+Print Assumptions conebeam_frommatrix_curved_repaired.
 
 (* =========== non-vacuity: the hypotheses above are met by objects the code builds =========== *)
 From Coq Require Import QArith.
@@ -454,8 +478,25 @@ Example default_geometries_3d_are_constructed :
   (match mk_par3a Qsqrt (0, 0, 1)%Q None None (0, 0, 0)%Q with
    | Some g => Qsclose 0 0 (f3 (pa_axis g) ++ f3 (pa_pos g) ++ f33 (det3_axes (pa_det g))) [0; 0; 1; 0; 1; 0; 1; 0; 0; 0; 0; 1]
    | None => false end) = true /\
-  (match mk_cone Qsqrt 5 3 CFlat 2 1 (0, 0, 1)%Q None None (0, 0, 0)%Q with
+  (match mk_cone Qsqrt false 5 3 CFlat 2 1 (0, 0, 1)%Q None None (0, 0, 0)%Q with
    | Some g => Qsclose 0 0 (f3 (c_axis g) ++ f3 (c_s2d g) ++ f33 (det3_axes (c_det g)) ++ [c_pitch g; c_off g])
                            [0; 0; 1; 0; 1; 0; 1; 0; 0; 0; 0; 1; 2; 1]
    | None => false end) = true.
 Proof. split; vm_compute; reflexivity. Qed.
+(* the code as it is ([false]): for axes ((0,1,0),(0,0,1)) the alignment matrix sends -e_y to -axes[0], and
+   frommatrix with the quarter turn about z is not the rotated default geometry; the repaired alignment ([true])
+   is right on the same inputs (executed) *)
+Example curved_alignment_refuted :
+  let z90 : (Q * Q * Q) * (Q * Q * Q) * (Q * Q * Q) := ((0, -1, 0), (1, 0, 0), (0, 0, 1))%Q in
+  let p : dpar3 := (0, 1 # 2, (3 # 5, 4 # 5), (1, 0))%Q in
+  let pos (fixed : bool) (m : option ((Q * Q * Q) * (Q * Q * Q) * (Q * Q * Q))) :=
+    match (match m with Some m => cone_frommatrix Qsqrt fixed 3 2 (CCyl (5 # 2)) 0 0 m (0, 0, 0)%Q
+                      | None => mk_cone Qsqrt fixed 3 2 (CCyl (5 # 2)) 0 0 (0, 0, 1)%Q None None (0, 0, 0)%Q end) with
+    | Some g => f3 (cone_detpoint Qsqrt g (1, 0)%Q 0 1 (0, 0, 0)%Q p) | None => [] end in
+  (match mk_curved Qsqrt false false (0, 1, 0)%Q (0, 0, 1)%Q 2, mk_curved Qsqrt true false (0, 1, 0)%Q (0, 0, 1)%Q 2 with
+   | Some (Cyl _ _ _ m0), Some (Cyl _ _ _ m1) =>
+       Qsclose 0 0 (f3 (mv3 m0 (0, -1, 0)%Q)) [0; -1; 0] && Qsclose 0 0 (f3 (mv3 m1 (0, -1, 0)%Q)) [0; 1; 0]
+   | _, _ => false end) = true /\
+  Qsclose 0 0 (pos true (Some z90)) (f3 (mv3 z90 (match pos true None with [x; y; z] => (x, y, z) | _ => (0, 0, 0)%Q end))) = true /\
+  Qsclose 0 0 (pos false (Some z90)) (f3 (mv3 z90 (match pos false None with [x; y; z] => (x, y, z) | _ => (0, 0, 0)%Q end))) = false.
+Proof. vm_compute. repeat split; reflexivity. Qed.
